@@ -82,7 +82,7 @@ func VerifC17ProposalOracles() {
 	view := &models.StakingView{}
 	e.k.stakingKeeper = view
 	e.setParams(verifParamSets[0], 20000)
-	n := rt.Bound("oracles", 4, 5)
+	n := rt.Bound("oracles", 4, 6)
 	var old, all []string
 	for i := 0; i < n; i++ {
 		// oracle 0 is online and stays; the others are online or not, in the old list or not
